@@ -3,7 +3,9 @@ package main
 import (
 	"fmt"
 	"net/url"
+	"regexp"
 	"sort"
+	"strconv"
 	"strings"
 
 	"github.com/apparentlymart/go-versions/versions"
@@ -233,12 +235,141 @@ func isKnownC06(r sourceaddrs.RemoteSource) string {
 	return ""
 }
 
+// addrIn is what an oracle failure of this lane records: the route the value was obtained by (how)
+// and what it was obtained from: the address string (or, for the constructor route, the triple) the lane
+// started with, plus the second string for values made of two. Enough to run the same route again.
+type addrIn struct {
+	How   string            `json:"how"`
+	Input string            `json:"input,omitempty"`
+	Make  map[string]string `json:"make,omitempty"`
+	With  string            `json:"with,omitempty"`
+	// Version: the version a registry address was combined with (Versioned)
+	Version string `json:"version,omitempty"`
+}
+
+type addrFrom struct {
+	s    string
+	mk   map[string]string
+	with string
+	ver  string
+}
+
+func (f addrFrom) in(how string) addrIn {
+	return addrIn{How: how, Input: f.s, Make: f.mk, With: f.with, Version: f.ver}
+}
+
+// addrReplay: what a replay file asks this lane to run first
+type addrReplay struct {
+	strs  []string    // address strings (through every parser route and the derived values)
+	makes [][3]string // constructor triples
+	valid []string    // strings of the documented-valid stream
+}
+
+var (
+	howParse   = regexp.MustCompile(`^(?:ParseRemoteSource|ParseSource|ParseFinalSource)\(("(?:[^"\\]|\\.)*")\)$`)
+	howMake    = regexp.MustCompile(`^MakeRemoteSource\(("(?:[^"\\]|\\.)*"),("(?:[^"\\]|\\.)*"),("(?:[^"\\]|\\.)*")\)$`)
+	howResolve = regexp.MustCompile(`^ResolveRelativeSource\(("(?:[^"\\]|\\.)*"), ("(?:[^"\\]|\\.)*")\)$`)
+	howFinal   = regexp.MustCompile(`^("(?:[^"\\]|\\.)*")\.FinalSourceAddr\(("(?:[^"\\]|\\.)*")\)$`)
+	howSrcAddr = regexp.MustCompile(`^("(?:[^"\\]|\\.)*")\.Package\(\)\.SourceAddr\(("(?:[^"\\]|\\.)*")\)$`)
+	howVers    = regexp.MustCompile(`(?s)^Versioned\((.*)\)$`)
+)
+
+// fromHow reads an older record, where only the description of the route was kept: the quoted strings
+// in it are the printed forms of the values involved
+func (ar *addrReplay) fromHow(how string) {
+	uq := func(q string) string {
+		if u, err := strconv.Unquote(q); err == nil {
+			return u
+		}
+		return q
+	}
+	switch {
+	case howParse.MatchString(how):
+		ar.strs = append(ar.strs, uq(howParse.FindStringSubmatch(how)[1]))
+	case howMake.MatchString(how):
+		m := howMake.FindStringSubmatch(how)
+		ar.makes = append(ar.makes, [3]string{uq(m[1]), uq(m[2]), uq(m[3])})
+	case howResolve.MatchString(how):
+		ar.strs = append(ar.strs, uq(howResolve.FindStringSubmatch(how)[1]))
+	case howFinal.MatchString(how):
+		m := howFinal.FindStringSubmatch(how)
+		ar.strs = append(ar.strs, uq(m[1]), uq(m[2]))
+	case howSrcAddr.MatchString(how):
+		ar.strs = append(ar.strs, uq(howSrcAddr.FindStringSubmatch(how)[1]))
+	case howVers.MatchString(how):
+		ar.strs = append(ar.strs, howVers.FindStringSubmatch(how)[1])
+	default:
+		ar.strs = append(ar.strs, how) // the address string itself
+	}
+}
+
+func loadAddrReplay(cfg *Config, rep *Report) *addrReplay {
+	ar := &addrReplay{}
+	var str string
+	var obj struct {
+		How   *string           `json:"how"`
+		Input *string           `json:"input"`
+		Make  map[string]string `json:"make"`
+		With  *string           `json:"with"`
+		Type  *string           `json:"type"`
+		URL   *string           `json:"url"`
+		Sub   *string           `json:"sub"`
+	}
+	triple := func(m map[string]string) { ar.makes = append(ar.makes, [3]string{m["type"], m["url"], m["sub"]}) }
+	switch {
+	case loadReplayInput(cfg, "addr", &str):
+		ar.fromHow(str)
+	case loadReplayInput(cfg, "addr", &obj):
+		switch {
+		case obj.Type != nil && obj.URL != nil:
+			sub := ""
+			if obj.Sub != nil {
+				sub = *obj.Sub
+			}
+			ar.makes = append(ar.makes, [3]string{*obj.Type, *obj.URL, sub})
+		case obj.Make != nil:
+			triple(obj.Make)
+		case obj.Input != nil && obj.How != nil && *obj.How == "valid-grammar":
+			ar.valid = append(ar.valid, *obj.Input)
+			ar.strs = append(ar.strs, *obj.Input)
+		case obj.Input != nil:
+			ar.strs = append(ar.strs, *obj.Input)
+			if obj.With != nil {
+				ar.strs = append(ar.strs, *obj.With)
+			}
+		case obj.How != nil:
+			ar.fromHow(*obj.How)
+		}
+	}
+	if len(ar.strs)+len(ar.makes) == 0 {
+		replayMissing(cfg, rep, "addr")
+		return nil
+	}
+	return ar
+}
+
 func init() {
 	lanes["addr"] = func(cfg *Config, rep *Report) {
 		rep.Rule = "address strings from a field-wise grammar (type prefix x scheme x userinfo x host x path x sub-path x query x fragment, incl. upper case, ports, escapes, non-ASCII), whole-string shapes (github/gitlab shorthand, registry, local, final registry), 12% character mutations; a separate stream of documented-valid remote addresses (must be accepted); (type, URL, sub-path) triples for MakeRemoteSource; derived values (relative resolution, FinalSourceAddr, Versioned, SourceAddr). non-trivial = accepted, or rejected after the URL was parsed; distinct by string"
 		r := NewRng(cfg.Seed)
 		var inputs []string
 		seen := map[string]bool{}
+		// exact replay (-case): the recorded strings come first in every phase; values derived from them
+		// take every derived route (no random choice), and no random draw is spent on them, so that the
+		// ordinary cases are the ones the seed gives without a replay
+		ar := loadAddrReplay(cfg, rep)
+		forced := map[string]bool{}
+		nReplay := 0
+		if ar != nil {
+			for _, s := range ar.strs {
+				forced[s] = true
+				if !seen[s] {
+					seen[s] = true
+					inputs = append(inputs, s)
+				}
+			}
+			nReplay = len(inputs)
+		}
 		// corpus first: witnesses of the recorded findings and past disagreements
 		for _, s := range []string{"git::https://example.com/foo.git//dir with space", "git::https://example.com/a%2Fb.git//sub", "git::https://h/x.git//sub#frag",
 			"git::https://h/x.git#frag", "https://h/dl/?archive=tgz", "example.com/foo/bar/baz//@sub", "git::https://h/a b.git", "./a", "../", "https://example.com/foo.tar.gz?checksum=",
@@ -254,6 +385,11 @@ func init() {
 			}
 		}
 		var valid []string
+		nReplayValid := 0
+		if ar != nil {
+			valid = append(valid, ar.valid...)
+			nReplayValid = len(valid)
+		}
 		for i := 0; i < cfg.N/10; i++ {
 			s := genValidRemote(r)
 			valid = append(valid, s)
@@ -274,8 +410,18 @@ func init() {
 		}
 		var reqs, impl []string
 		var human []interface{}
-		byString := map[string][]sourceaddrs.RemoteSource{}
+		type printed struct {
+			v    sourceaddrs.RemoteSource
+			from string
+		}
+		byString := map[string][]printed{}
+		if nReplay > 0 {
+			rep.BeginReplay()
+		}
 		for i, s := range inputs {
+			if i == nReplay && nReplay > 0 {
+				rep.EndReplay(reqs...)
+			}
 			real, rerr := parseRemoteSafe(rep, s)
 			f := strings.Split(fronts[i], " ")
 			switch f[0] {
@@ -301,36 +447,69 @@ func init() {
 			for _, v := range policyViolations(real) {
 				rep.AddOracle(OracleFailure{Property: "C07", Lane: "addr", What: "accepted address violates the transport policy: " + v, Input: s, ReqIdx: len(reqs)})
 			}
-			byString[real.String()] = append(byString[real.String()], real)
-			checkRoundTripRemote(rep, real, "ParseRemoteSource("+fmt.Sprintf("%q", s)+")", len(reqs))
+			byString[real.String()] = append(byString[real.String()], printed{real, s})
+			checkRoundTripRemote(rep, real, "ParseRemoteSource("+fmt.Sprintf("%q", s)+")", len(reqs), addrFrom{s: s})
+		}
+		if nReplay > 0 && nReplay >= len(inputs) {
+			rep.EndReplay(reqs...)
 		}
 		// equal exactly when they print the same
 		for str, vals := range byString {
-			for _, v := range vals[1:] {
-				if v != vals[0] {
+			for _, pv := range vals[1:] {
+				if v := pv.v; v != vals[0].v {
 					sig := isKnownC06(v)
 					if sig == "" {
-						sig = isKnownC06(vals[0])
+						sig = isKnownC06(vals[0].v)
 					}
-					rep.AddOracle(OracleFailure{Property: "C06", Lane: "addr", What: "two unequal remote addresses print the same: " + str, Input: str, Signature: sig})
+					both := forced[pv.from] && forced[vals[0].from]
+					if both {
+						rep.BeginReplay()
+					}
+					rep.AddOracle(OracleFailure{Property: "C06", Lane: "addr", What: "two unequal remote addresses print the same: " + str, Input: addrIn{How: "print-collision: " + str, Input: vals[0].from, With: pv.from}, Signature: sig})
+					if both {
+						rep.EndReplay()
+					}
 				}
 			}
 		}
 		// documented-valid addresses must be accepted (C07 completeness)
-		for _, s := range valid {
+		for i, s := range valid {
+			if i < nReplayValid {
+				rep.BeginReplay()
+			}
 			if _, err := sourceaddrs.ParseSource(s); err != nil {
-				rep.AddOracle(OracleFailure{Property: "C07", Lane: "addr", What: fmt.Sprintf("documented-valid address rejected: %v", err), Input: s})
+				rep.AddOracle(OracleFailure{Property: "C07", Lane: "addr", What: fmt.Sprintf("documented-valid address rejected: %v", err), Input: addrIn{How: "valid-grammar", Input: s}})
+			}
+			if i < nReplayValid {
+				rep.EndReplay()
 			}
 			rep.Count("valid-grammar")
 		}
 		// ---- MakeRemoteSource(type, URL, sub-path) ----
 		makeCorpus := [][3]string{{"git", "https://h/a//b.tgz", ""}, {"https", "https://h/foo.tar.gz?x=%zz", ""}, {"git", "https://user:pw@example.com/x.git", ""}, {"https", "https://example.com/x.tgz?checksum=", ""}}
-		for i := 0; i < cfg.N/4+len(makeCorpus); i++ {
-			ty := r.Pick([]string{"git", "https", "http", "hg", "GIT", ""})
-			us := strings.TrimRight(r.Pick(aSchemes), "")+r.Pick(aUsers)+r.Pick(aHosts)+r.Pick(aPaths)+r.Pick(aQueries)+r.Pick(aFrags)
-			sub := strings.TrimPrefix(r.Pick(aSubs), "//")
-			if i < len(makeCorpus) {
-				ty, us, sub = makeCorpus[i][0], makeCorpus[i][1], makeCorpus[i][2]
+		nReplayMake := 0
+		if ar != nil {
+			nReplayMake = len(ar.makes)
+		}
+		for i := -nReplayMake; i < cfg.N/4+len(makeCorpus); i++ {
+			var ty, us, sub string
+			if i < 0 {
+				// replayed triples (no random draw is spent on them)
+				t := ar.makes[i+nReplayMake]
+				ty, us, sub = t[0], t[1], t[2]
+				if i == -nReplayMake {
+					rep.BeginReplay()
+				}
+			} else {
+				if i == 0 && nReplayMake > 0 {
+					rep.EndReplay(reqs...)
+				}
+				ty = r.Pick([]string{"git", "https", "http", "hg", "GIT", ""})
+				us = strings.TrimRight(r.Pick(aSchemes), "")+r.Pick(aUsers)+r.Pick(aHosts)+r.Pick(aPaths)+r.Pick(aQueries)+r.Pick(aFrags)
+				sub = strings.TrimPrefix(r.Pick(aSubs), "//")
+				if i < len(makeCorpus) {
+					ty, us, sub = makeCorpus[i][0], makeCorpus[i][1], makeCorpus[i][2]
+				}
 			}
 			u, perr := url.Parse(us)
 			if perr != nil {
@@ -347,22 +526,34 @@ func init() {
 				for _, v := range policyViolations(real) {
 					rep.AddOracle(OracleFailure{Property: "C07", Lane: "addr", What: "MakeRemoteSource result violates the transport policy: " + v, Input: in, ReqIdx: len(reqs)})
 				}
-				checkRoundTripRemote(rep, real, fmt.Sprintf("MakeRemoteSource(%q,%q,%q)", ty, us, sub), len(reqs))
+				checkRoundTripRemote(rep, real, fmt.Sprintf("MakeRemoteSource(%q,%q,%q)", ty, us, sub), len(reqs), addrFrom{mk: in})
 			} else {
 				rep.Count("make:rejected")
 			}
 		}
+		if nReplayMake > 0 {
+			rep.EndReplay(reqs...) // (also when the ordinary part of the loop is empty)
+		}
 		// ---- all kinds through ParseSource / ParseFinalSource + derived values ----
 		var accepted []sourceaddrs.Source
-		for _, s := range inputs {
+		var acceptedFrom []string
+		if nReplay > 0 {
+			rep.BeginReplay()
+		}
+		s1 := len(reqs)
+		for i, s := range inputs {
+			if i == nReplay && nReplay > 0 {
+				rep.EndReplay(reqs[s1:]...)
+			}
 			x, err := parseSourceSafe(rep, s)
 			if err == nil {
 				accepted = append(accepted, x)
-				checkRoundTripSource(rep, x, fmt.Sprintf("ParseSource(%q)", s))
+				acceptedFrom = append(acceptedFrom, s)
+				checkRoundTripSource(rep, x, fmt.Sprintf("ParseSource(%q)", s), addrFrom{s: s})
 			}
 			y, err := parseFinalSafe(rep, s)
 			if err == nil {
-				checkRoundTripFinal(rep, y, fmt.Sprintf("ParseFinalSource(%q)", s))
+				checkRoundTripFinal(rep, y, fmt.Sprintf("ParseFinalSource(%q)", s), addrFrom{s: s})
 			}
 			// local sources against the model
 			ls, lerr := sourceaddrs.ParseLocalSource(s)
@@ -378,8 +569,17 @@ func init() {
 			impl = append(impl, map[bool]string{true: "ok", false: "err"}[sourceaddrs.ValidSubPath(s)])
 			human = append(human, s)
 		}
+		if nReplay > 0 && nReplay >= len(inputs) {
+			rep.EndReplay(reqs[s1:]...)
+		}
 		rels := []string{"./", "../", "./x", "../x", "../../x", "./.hidden/y", "../.x", "./a/b", "../..", "./x y"}
-		for _, a := range accepted {
+		verPool := []string{"1.0.0", "2.1.0-beta1", "0.1.0+meta"}
+		for ai, a := range accepted {
+			af := acceptedFrom[ai]
+			// values derived from a replayed string belong to the replayed case
+			if forced[af] {
+				rep.BeginReplay()
+			}
 			for _, rel := range rels {
 				ls, err := sourceaddrs.ParseLocalSource(rel)
 				if err != nil {
@@ -388,25 +588,43 @@ func init() {
 				d, err := sourceaddrs.ResolveRelativeSource(a, ls)
 				if err == nil {
 					rep.Count("derived:resolve")
-					checkRoundTripSource(rep, d, fmt.Sprintf("ResolveRelativeSource(%q, %q)", a.String(), rel))
+					checkRoundTripSource(rep, d, fmt.Sprintf("ResolveRelativeSource(%q, %q)", a.String(), rel), addrFrom{s: af})
 				}
 			}
 			if rs, ok := a.(sourceaddrs.RegistrySource); ok {
-				v := rs.Versioned(versions.MustParseVersion(r.Pick([]string{"1.0.0", "2.1.0-beta1", "0.1.0+meta"})))
-				rep.Count("derived:versioned")
-				checkRoundTripFinal(rep, v, "Versioned("+rs.String()+")")
-				for _, b := range accepted {
-					if rem, ok := b.(sourceaddrs.RemoteSource); ok && r.Chance(5) {
-						rep.Count("derived:finalsourceaddr")
-						checkRoundTripRemote(rep, rs.FinalSourceAddr(rem), fmt.Sprintf("%q.FinalSourceAddr(%q)", rs.String(), rem.String()), 0)
+				vers := verPool // a replayed string: every version, no random draw
+				if !forced[af] {
+					vers = []string{r.Pick(verPool)}
+				}
+				for _, ver := range vers {
+					v := rs.Versioned(versions.MustParseVersion(ver))
+					rep.Count("derived:versioned")
+					checkRoundTripFinal(rep, v, "Versioned("+rs.String()+")", addrFrom{s: af, ver: ver})
+				}
+				for bi, b := range accepted {
+					if rem, ok := b.(sourceaddrs.RemoteSource); ok {
+						bf := acceptedFrom[bi]
+						do := false
+						if forced[af] || forced[bf] {
+							do = forced[af] && forced[bf] // both replayed: always; one of them: left out
+						} else {
+							do = r.Chance(5)
+						}
+						if do {
+							rep.Count("derived:finalsourceaddr")
+							checkRoundTripRemote(rep, rs.FinalSourceAddr(rem), fmt.Sprintf("%q.FinalSourceAddr(%q)", rs.String(), rem.String()), 0, addrFrom{s: af, with: bf})
+						}
 					}
 				}
 			}
 			if rem, ok := a.(sourceaddrs.RemoteSource); ok {
 				for _, sp := range []string{"", "m", "m/n", "x y"} {
 					rep.Count("derived:sourceaddr")
-					checkRoundTripRemote(rep, rem.Package().SourceAddr(sp), fmt.Sprintf("%q.Package().SourceAddr(%q)", rem.String(), sp), 0)
+					checkRoundTripRemote(rep, rem.Package().SourceAddr(sp), fmt.Sprintf("%q.Package().SourceAddr(%q)", rem.String(), sp), 0, addrFrom{s: af})
 				}
+			}
+			if forced[af] {
+				rep.EndReplay()
 			}
 		}
 		// model answers the normsub probe with the normalised value or err; compare only ok/err
@@ -488,7 +706,7 @@ func componentHasEdgeSpace(x interface{}) bool {
 	return false
 }
 
-func checkRoundTripRemote(rep *Report, x sourceaddrs.RemoteSource, how string, reqIdx int) {
+func checkRoundTripRemote(rep *Report, x sourceaddrs.RemoteSource, how string, reqIdx int, from addrFrom) {
 	s := x.String()
 	y, err := sourceaddrs.ParseSource(s)
 	sig := isKnownC06(x)
@@ -502,11 +720,11 @@ func checkRoundTripRemote(rep *Report, x sourceaddrs.RemoteSource, how string, r
 		sig = "addr.edge-whitespace"
 	}
 	if err != nil {
-		rep.AddOracle(OracleFailure{Property: "C06", Lane: "addr", What: fmt.Sprintf("%s prints as %q, which does not parse: %v", how, s, err), Input: how, Signature: sig, ReqIdx: reqIdx})
+		rep.AddOracle(OracleFailure{Property: "C06", Lane: "addr", What: fmt.Sprintf("%s prints as %q, which does not parse: %v", how, s, err), Input: from.in(how), Signature: sig, ReqIdx: reqIdx})
 		return
 	}
 	if y != sourceaddrs.Source(x) {
-		rep.AddOracle(OracleFailure{Property: "C06", Lane: "addr", What: fmt.Sprintf("%s prints as %q, which parses to a different value (printing %q)", how, s, y.String()), Input: how, Signature: sig, ReqIdx: reqIdx})
+		rep.AddOracle(OracleFailure{Property: "C06", Lane: "addr", What: fmt.Sprintf("%s prints as %q, which parses to a different value (printing %q)", how, s, y.String()), Input: from.in(how), Signature: sig, ReqIdx: reqIdx})
 	}
 }
 
@@ -522,10 +740,10 @@ func lastSeg(p string) string {
 	return p
 }
 
-func checkFilename(rep *Report, x interface{}, how string) {
+func checkFilename(rep *Report, x interface{}, how string, from addrFrom) {
 	defer func() {
 		if r := recover(); r != nil {
-			rep.AddOracle(OracleFailure{Property: "C19", Lane: "addr", What: fmt.Sprintf("SourceFilename/FinalSourceFilename panics on %s: %v", how, r), Input: how})
+			rep.AddOracle(OracleFailure{Property: "C19", Lane: "addr", What: fmt.Sprintf("SourceFilename/FinalSourceFilename panics on %s: %v", how, r), Input: from.in(how)})
 		}
 	}()
 	var got, part string
@@ -552,14 +770,14 @@ func checkFilename(rep *Report, x interface{}, how string) {
 		want = strings.TrimSuffix(part, "/")
 	}
 	if got != want {
-		rep.AddOracle(OracleFailure{Property: "C11", Lane: "addr", What: fmt.Sprintf("file name of %s is %q, the last segment of %q is %q", how, got, part, want), Input: how})
+		rep.AddOracle(OracleFailure{Property: "C11", Lane: "addr", What: fmt.Sprintf("file name of %s is %q, the last segment of %q is %q", how, got, part, want), Input: from.in(how)})
 	}
 }
 
-func checkRoundTripSource(rep *Report, x sourceaddrs.Source, how string) {
-	checkFilename(rep, x, how)
+func checkRoundTripSource(rep *Report, x sourceaddrs.Source, how string, from addrFrom) {
+	checkFilename(rep, x, how, from)
 	if r, ok := x.(sourceaddrs.RemoteSource); ok {
-		checkRoundTripRemote(rep, r, how, 0)
+		checkRoundTripRemote(rep, r, how, 0, from)
 		return
 	}
 	s := x.String()
@@ -574,18 +792,18 @@ func checkRoundTripSource(rep *Report, x sourceaddrs.Source, how string) {
 	}
 	y, err := sourceaddrs.ParseSource(s)
 	if err != nil {
-		rep.AddOracle(OracleFailure{Property: "C06", Lane: "addr", What: fmt.Sprintf("%s prints as %q, which does not parse: %v", how, s, err), Input: how, Signature: sig})
+		rep.AddOracle(OracleFailure{Property: "C06", Lane: "addr", What: fmt.Sprintf("%s prints as %q, which does not parse: %v", how, s, err), Input: from.in(how), Signature: sig})
 		return
 	}
 	if y != x {
-		rep.AddOracle(OracleFailure{Property: "C06", Lane: "addr", What: fmt.Sprintf("%s prints as %q, which parses to a different value", how, s), Input: how, Signature: sig})
+		rep.AddOracle(OracleFailure{Property: "C06", Lane: "addr", What: fmt.Sprintf("%s prints as %q, which parses to a different value", how, s), Input: from.in(how), Signature: sig})
 	}
 }
 
-func checkRoundTripFinal(rep *Report, x sourceaddrs.FinalSource, how string) {
-	checkFilename(rep, x, how)
+func checkRoundTripFinal(rep *Report, x sourceaddrs.FinalSource, how string, from addrFrom) {
+	checkFilename(rep, x, how, from)
 	if r, ok := x.(sourceaddrs.RemoteSource); ok {
-		checkRoundTripRemote(rep, r, how, 0)
+		checkRoundTripRemote(rep, r, how, 0, from)
 		return
 	}
 	s := x.String()
@@ -596,10 +814,10 @@ func checkRoundTripFinal(rep *Report, x sourceaddrs.FinalSource, how string) {
 	}
 	y, err := sourceaddrs.ParseFinalSource(s)
 	if err != nil {
-		rep.AddOracle(OracleFailure{Property: "C06", Lane: "addr", What: fmt.Sprintf("%s prints as %q, which does not parse as a final source: %v", how, s, err), Input: how, Signature: sig})
+		rep.AddOracle(OracleFailure{Property: "C06", Lane: "addr", What: fmt.Sprintf("%s prints as %q, which does not parse as a final source: %v", how, s, err), Input: from.in(how), Signature: sig})
 		return
 	}
 	if y != x {
-		rep.AddOracle(OracleFailure{Property: "C06", Lane: "addr", What: fmt.Sprintf("%s prints as %q, which parses to a different final source", how, s), Input: how, Signature: sig})
+		rep.AddOracle(OracleFailure{Property: "C06", Lane: "addr", What: fmt.Sprintf("%s prints as %q, which parses to a different final source", how, s), Input: from.in(how), Signature: sig})
 	}
 }
